@@ -19,6 +19,7 @@ var smlEnumVocab = []string{
 	"<", ">", ".", "L", "A", "B", "BOOLEAN", "U1", "I2", "F4", "[2]", "[1..2]", "[0]",
 	"5", "-1", "300", "0x1F", "0b11", "1.5", "1e39", `"ab"`, `""`, "x", "y[1]", "...", "...[3]", "T", "false",
 	"S2F2", "S1F0", "W", "H->E", "//c\n", "*",
+	".\u0663", "e.\u0663", "\uff15", // a non-ASCII digit behind a dot, behind a name ending in e and a dot, alone
 }
 
 // contexts: where the words go
